@@ -76,11 +76,26 @@ func evInfo(e vEvent) (fsutil.ChangeKind, os.FileInfo) {
 	if e.Kind == 0 || e.Kind == 3 {
 		mode = uint32(os.ModeDir | 0755)
 	}
+	// kinds 5..10: the other entry types, added as non-directories
+	switch e.Kind {
+	case 5:
+		mode = uint32(os.ModeSymlink | 0777)
+	case 6:
+		mode = uint32(os.ModeDevice | os.ModeCharDevice | 0666)
+	case 7:
+		mode = uint32(os.ModeDevice | 0660)
+	case 8:
+		mode = uint32(os.ModeNamedPipe | 0600)
+	case 9:
+		mode = uint32(os.ModeSocket | 0755)
+	case 10:
+		mode = uint32(os.ModeSetuid | os.ModeSetgid | os.ModeSticky | 0755)
+	}
 	k := fsutil.ChangeKindAdd
 	if e.Kind == 2 {
 		k = fsutil.ChangeKindDelete
 	}
-	if e.Kind >= 3 {
+	if e.Kind == 3 || e.Kind == 4 {
 		k = fsutil.ChangeKindModify // what the differ emits for an entry whose metadata or content changed
 	}
 	return k, &fsutil.StatInfo{Stat: &types.Stat{Path: e.Path, Mode: mode}}
@@ -190,6 +205,32 @@ func c12ByteAlphabet(tier string) []vEvent {
 	var out []vEvent
 	for _, p := range []string{"..", "a", "-a", "-a/b", "+", "+/x", "a/-b", "a/-b/c", "caf\xe9", "caf\xe9/x", "a/\xff", "\xc3"} {
 		for k := 0; k < 5; k++ {
+			out = append(out, vEvent{Kind: k, Path: p})
+		}
+	}
+	return out
+}
+
+// c12TypeAlphabet: every entry type at a top-level and a nested path (the validator judges paths, not types).
+func c12TypeAlphabet(tier string) []vEvent {
+	var out []vEvent
+	for _, p := range []string{"a", "a/b", "b"} {
+		for k := 0; k <= 10; k++ {
+			if k != 2 && k != 3 && k != 4 {
+				out = append(out, vEvent{Kind: k, Path: p})
+			}
+		}
+	}
+	return out
+}
+
+// c12LongAlphabet: paths far longer than a single name may be (three components of 100 bytes, a 255-byte name below a
+// 255-byte name).
+func c12LongAlphabet(tier string) []vEvent {
+	x, y, z, n := strings.Repeat("x", 100), strings.Repeat("y", 100), strings.Repeat("z", 100), strings.Repeat("n", 255)
+	var out []vEvent
+	for _, p := range []string{x, x + "/" + y, x + "/" + y + "/" + z, n, n + "/" + n, "a"} {
+		for k := 0; k < 2; k++ {
 			out = append(out, vEvent{Kind: k, Path: p})
 		}
 	}
@@ -381,7 +422,7 @@ func runC12(r *evid.Run) {
 	r.Sample(map[string]any{"order_pair": []string{"a-b", "a/b"}, "real": fsutil.ComparePath("a-b", "a/b"), "spec": fsmodel.ComparePaths("a-b", "a/b")})
 
 	// ---- part 2: validator, product BFS to closure ----
-	for pass, events := range [][]vEvent{c12Alphabet(r.Tier), c12DeepAlphabet(r.Tier), c12DotAlphabet(r.Tier), c12PrefixAlphabet(r.Tier), c12ByteAlphabet(r.Tier), c12SiblingAlphabet(r.Tier)} {
+	for pass, events := range [][]vEvent{c12Alphabet(r.Tier), c12DeepAlphabet(r.Tier), c12DotAlphabet(r.Tier), c12PrefixAlphabet(r.Tier), c12ByteAlphabet(r.Tier), c12SiblingAlphabet(r.Tier), c12TypeAlphabet(r.Tier), c12LongAlphabet(r.Tier)} {
 		type item struct{ hist []vEvent }
 		seen := map[string]bool{}
 		frontier := []item{{}}
